@@ -68,6 +68,51 @@ def orth_post(ctx, old, obj, nrm, mode, is_mpo, in_situ=False):
     ctx.ok(f'{tag}.inexact-dtype', all(np.issubdtype(a.dtype, np.inexact) for a in obj.A), 'tensor dtype after orthonormalize is not floating', detail, s)
 
 
+def add_structure(rng, obj, is_mpo, how):
+    """Exact structural sparsity / dependency on a random inner bond: 'dead' (a bond index whose slice is exactly zero on one or both
+    sides), 'dup' (one bond slice an exact copy / multiple of another with the same charge), 'sparse' (random entries set to exactly 0)."""
+    L = len(obj.A)
+    ax_r = 3 if is_mpo else 2          # right-bond axis of the left tensor
+    ax_l = 2 if is_mpo else 1          # left-bond axis of the right tensor
+    if how == 'sparse':
+        for i in range(L):
+            obj.A[i] = obj.A[i] * (rng.random(size=obj.A[i].shape) < 0.5)
+        return
+    if L < 2:
+        return
+    for _ in range(int(rng.integers(1, 3))):
+        k = int(rng.integers(1, L))        # bond k between tensors k-1 and k
+        D = len(obj.qD[k])
+        j = int(rng.integers(0, D))
+        side = str(rng.choice(['left', 'right', 'both']))
+        if how == 'dead':
+            if side in ('left', 'both'):
+                idx = [slice(None)] * obj.A[k - 1].ndim; idx[ax_r] = j
+                obj.A[k - 1][tuple(idx)] = 0
+            if side in ('right', 'both'):
+                idx = [slice(None)] * obj.A[k].ndim; idx[ax_l] = j
+                obj.A[k][tuple(idx)] = 0
+        elif how == 'dup':
+            same = [m for m in range(D) if m != j and int(obj.qD[k][m]) == int(obj.qD[k][j])]
+            if not same:
+                continue
+            m = int(rng.choice(same))
+            c = float(rng.choice([1.0, -1.0, 2.0]))
+            if side in ('left', 'both'):
+                src = [slice(None)] * obj.A[k - 1].ndim; src[ax_r] = j
+                dst = [slice(None)] * obj.A[k - 1].ndim; dst[ax_r] = m
+                obj.A[k - 1][tuple(dst)] = c * obj.A[k - 1][tuple(src)]
+            if side in ('right', 'both'):
+                src = [slice(None)] * obj.A[k].ndim; src[ax_l] = j
+                dst = [slice(None)] * obj.A[k].ndim; dst[ax_l] = m
+                obj.A[k][tuple(dst)] = c * obj.A[k][tuple(src)]
+
+
+STRUCT = ['none', 'none', 'dead', 'dup', 'sparse']
+ZERO_PARAM_MODELS = [('ising', (1.0, 0.0, 0.0)), ('ising', (0.7, 0.0, 0.4)), ('ising', (0.0, 0.5, 0.0)), ('xxz', (1.0, 0.0, 0.0)), ('xxz', (0.0, 1.0, 0.0)),
+                     ('xxz', (0.0, 0.0, 1.0)), ('xxz1', (1.0, 0.0, 0.0)), ('xxz1', (0.0, 1.0, 0.5)), ('bose3', (1.0, 0.0, 0.0)), ('bose3', (0.0, 1.0, 1.0)),
+                     ('fermi', (1.0, 0.0, 0.0)), ('fermi', (0.0, 1.0, 0.0))]
+
 PROFILES = ['one', 'random', 'max', 'over', 'disjoint', 'deficient']
 LAYOUTS = ['zero', 'sorted', 'unsorted', 'repeated', 'pairs']
 KINDS = ['complex', 'real', 'int', 'float32']
@@ -100,9 +145,13 @@ def mps_case(ctx, idx, rng):
         psi = gen.rand_mps(rng, qd, L, prof, Dmax=5, kind=kind, q0=int(rng.integers(-1, 2)), layout='sorted' if layout == 'sorted' else 'unsorted')
     if kind == 'int' and prof != 'deficient' and rng.random() < 0.3:
         psi = ptn.MPS(psi.qd, psi.qD, fill=int(rng.choice([1, 2, -1])))    # the documented scalar-fill constructor with an integer
+    elif prof != 'deficient' and rng.random() < 0.15:
+        psi = ptn.MPS(psi.qd, psi.qD, fill=complex(rng.choice([0.5, 1.0]), rng.choice([0.0, -1.0])) if rng.random() < 0.5 else float(rng.choice([0.5, -2.0])))
+    struct = STRUCT[(idx // 3) % len(STRUCT)]
+    add_structure(rng, psi, False, struct)
     old = snapshot(psi, False)
     zero = np.linalg.norm(old['dense']) == 0
-    ctx.case(('mps', f'L{min(L, 3)}', f'd{min(d, 3)}', prof, layout, kind if prof != 'deficient' else 'complex', mode, 'zero-state' if zero else 'nonzero'),
+    ctx.case(('mps', f'L{min(L, 3)}', f'd{min(d, 3)}', prof, layout, kind if prof != 'deficient' else 'complex', mode, 'zero-state' if zero else 'nonzero', struct),
              nontrivial=not zero, sample={'qd': psi.qd, 'qD': psi.qD, 'mode': mode, 'A0': psi.A[0]}, info={'qd': old['qd'], 'qD': old['qD'], 'A': old['A'], 'mode': mode})
     nrm = psi.orthonormalize(mode)
     orth_post(ctx, old, psi, nrm, mode, False)
@@ -125,8 +174,18 @@ def mpo_case(ctx, idx, rng):
     kind = ('complex', 'real', 'int')[(idx // 5) % 3]
     mode = ('left', 'right')[idx % 2]
     qd = _qd(rng, d, layout)
-    src = str(rng.choice(['random', 'random', 'model', 'over', 'disjoint']))
-    if src == 'model' and d >= 2:
+    src = str(rng.choice(['random', 'random', 'model', 'over', 'disjoint', 'zero-param-model']))
+    struct = STRUCT[(idx // 3) % len(STRUCT)]
+    if src == 'zero-param-model':
+        name, p = ZERO_PARAM_MODELS[idx % len(ZERO_PARAM_MODELS)]
+        L = max(L, 2)
+        while gen.MODEL_D[name] ** (2 * L) > 4096 * 4:
+            L -= 1
+        op = gen.model(name, max(L, 2), p)
+        L = op.nsites
+        d = len(op.qd)
+        struct = 'none'
+    elif src == 'model' and d >= 2:
         name = {2: 'xxz', 3: 'xxz1'}[d]
         op = gen.model(name, L, gen.generic_params(rng)) if L >= 2 else gen.rand_mpo(rng, qd, L, 4, kind)
     else:
@@ -138,9 +197,11 @@ def mpo_case(ctx, idx, rng):
             for i in (k - 1, k):
                 mask = np.add.outer(np.add.outer(np.add.outer(op.qd, -op.qd), op.qD[i]), -op.qD[i + 1])
                 op.A[i] = np.where(mask == 0, op.A[i], 0)
+    if src != 'zero-param-model':
+        add_structure(rng, op, True, struct)
     old = snapshot(op, True)
     zero = np.linalg.norm(old['dense']) == 0
-    ctx.case(('mpo', f'L{L}', f'd{d}', src, layout, kind, mode, 'zero-op' if zero else 'nonzero'), nontrivial=not zero,
+    ctx.case(('mpo', f'L{L}', f'd{d}', src, layout, kind, mode, 'zero-op' if zero else 'nonzero', struct), nontrivial=not zero,
              sample={'qd': op.qd, 'qD': op.qD, 'mode': mode}, info={'qd': old['qd'], 'qD': old['qD'], 'A': old['A'], 'mode': mode})
     nrm = op.orthonormalize(mode)
     orth_post(ctx, old, op, nrm, mode, True)
@@ -180,7 +241,8 @@ SPEC = {
     'rule': ('MPS: L 1..6, d 1..4 (d^L <= 4096), bond profiles {all 1, random, maximal, over-complete, disjoint sectors (zero state), '
              'rank-deficient thin products} x charge layouts {zero, sorted, unsorted, repeated, encoded pairs} x entries {complex, real, integer '
              '(incl. the scalar-fill constructor), float32} x both modes, followed by a second call on the canonical object; MPO: L 1..4, d 1..3, '
-             'random / built-in model / over-complete / disjoint. In situ: orthonormalize as called from compress, TDVP, DMRG. '
+             'random / built-in model / built-in model with vanishing parameters (exactly sparse tensors) / over-complete / disjoint; both classes '
+             'additionally with exact structure on inner bonds: dead bond indices, exactly duplicated (dependent) bond slices, random exact zeros. In situ: orthonormalize as called from compress, TDVP, DMRG. '
              'Non-trivial = non-zero object; distinct = (class, L, d, profile, layout, entry kind, mode).'),
     'deciding': ['mps.factor-equals-norm', 'mps.factor-times-new-equals-old', 'mps.site-isometries', 'mps.unit-norm-after', 'mps.bond-dims-bounded',
                  'mpo.factor-equals-norm', 'mpo.factor-times-new-equals-old', 'mpo.site-isometries', 'mps.factor-nonnegative', 'mpo.factor-nonnegative'],
